@@ -1,6 +1,7 @@
 import LexVerif.Spec.StdFloat
 import LexVerif.Props.C05
 import LexVerif.Proof.RoundNEStep
+import LexVerif.Proof.BellLossy
 /-!
 # C19 — lossy float parsing changes only precision (property theorems)
 
@@ -11,6 +12,8 @@ Algorithm level, power-of-two radices (model `Model.Binary`):
 * `lossy_pow2_exact` — under `lossy`, `binary` always answers, and with `roundNE (mantissa·base^exponent)`:
   for an untruncated mantissa the lossy result **is** the correctly rounded one;
 * `lossy_pow2_agrees` — whenever the non-lossy `binary` decides, both answers are the same float;
+* `lossy_bellerophon_neighbour` — **complete** on the model: lossy Bellerophon (decimal in `compact` builds, all
+  29 generic radices) answers with the correctly rounded float or an adjacent pattern;
 * `lossy_pow2_neighbour` — **complete**: for a truncated mantissa (at least `p` bits) the lossy answer is the
   correctly rounded float of the true value or the pattern immediately below it (`Proof.RoundNEStep`: a relative
   change of at most `2^−p` moves `roundNE` by at most one pattern); `lossy_pow2_bracket_partial`: the bracket
@@ -150,6 +153,36 @@ theorem lossy_pow2_bracket_partial {F : FTy} {p eb : Nat} (lay : Layout F p eb) 
   refine ⟨fp, fp1, a1, b1, ?_, ?_⟩
   · rw [a3]; exact roundNE_mono' hf (hden _) hd hlo
   · rw [b3]; exact roundNE_mono' hf hd (hden _) hhi
+
+/-! ## Bellerophon (decimal under `compact`, every generic radix) -/
+
+open LexVerif.Proof.Bell in
+/-- **`lossy_bellerophon_neighbour`** (**complete** on the model): with `lossy`, `bellerophon::<F, FORMAT>` always
+answers, and its answer is `roundNE` of the true value of the literal or a pattern adjacent to it — for every
+radix with Bellerophon tables (`IsBellTable`: the 29 generic radices in `radix` builds; those and 10 in `compact`
+builds), every exponent, untruncated mantissas and truncated ones of at least 55 bits (every `u64_step`-digit
+mantissa). Decimal parsing in non-`compact` builds uses Eisel–Lemire instead: `lossy_decimal_neighbour` there is
+measured, not proved. -/
+theorem lossy_bellerophon_neighbour (F : FTy) (hF : F = FTy.f64 ∨ F = FTy.f32)
+    (P : Gen.Bellerophon.Powers) (r : Nat) (hP : IsBellTable P r) (n : Num) (hw : n.mantissa < 2 ^ 64)
+    (hmw : n.manyDigits = true → 2 ^ 55 ≤ n.mantissa) (num den : Nat) (hd : 0 < den)
+    (htv : TrueValue r n num den) :
+    ∃ fp, Bellerophon.bellerophon F P n true = .ok fp ∧ 0 ≤ fp.exp ∧
+      extendedToFloat F fp ≤ roundNE F.fmt num den + 1 ∧ roundNE F.fmt num den ≤ extendedToFloat F fp + 1 := by
+  have hc : BellFacts r P := by
+    rcases hP with ⟨hr, rfl⟩ | ⟨hr, rfl⟩
+    · exact bellFacts_of (bellCheck_radix r hr)
+    · exact bellFacts_of (bellCheck_compact r hr)
+  rcases hF with h' | h' <;> subst h'
+  · exact bellerophon_lossy_neighbour layout_f64 (by decide) hc n hw hmw num den hd htv
+  · exact bellerophon_lossy_neighbour layout_f32 (by decide) hc n hw hmw num den hd htv
+
+/-- non-vacuity (decimal, `compact`): `2^53 + 1` is a tie: non-lossy declines, lossy rounds the estimate -/
+example : Bellerophon.bellerophon FTy.f64 (Gen.Bellerophon.CompactRadix.powers 10)
+      ⟨9007199254740993, 0, false, false⟩ true = .ok ⟨0, 1076⟩ ∧
+    Bellerophon.bellerophon FTy.f64 (Gen.Bellerophon.CompactRadix.powers 10)
+      ⟨9007199254740993, 0, false, false⟩ false = .ok ⟨9223372036854776832, -31703⟩ := by
+  decide +kernel
 
 /-- non-vacuity: a truncated, exactly-half-way-even mantissa: non-lossy declines, lossy rounds the mantissa -/
 example : Binary.binary FTy.f64 16 ⟨0x20000000000001, 0, false, true⟩ true = .ok ⟨0, 1076⟩ ∧
